@@ -128,5 +128,7 @@ package registry
 //@ func (r *UnifiedMemoryModelRegistry) RegisterModelsWithEndpoint
 //@   property C20
 //@   trusted
-//@   modifies gvar regCalls
+//@   modifies gvar regCalls, gvar regModels, gvar regURL
 //@   records regCalls = old(regCalls) + 1
+//@   records regModels = models
+//@   records regURL = endpoint.URLString
